@@ -66,7 +66,8 @@ def _root_text(defs, name, selfref, typedef=False, nocompile=False):
     root["name"] = name
     if selfref is not None:
         root["fields"].insert(selfref, {"name": "self_next", "type": name, "inline": None, "ptr": 1, "dims": [], "bits": None})
-    helpers = {"defines": defs["defines"], "enums": defs["enums"], "structs": defs["structs"][:-1]}
+    root.pop("nocompile", None)
+    helpers = {"defines": defs["defines"], "enums": defs["enums"], "typedefs": defs.get("typedefs", []), "structs": defs["structs"][:-1]}
     text = gen.render(helpers)
     flag = "#[nocompile]\n" if nocompile else ""  # the definition language's per-structure opt-out of the compiled reader
     if typedef:
@@ -186,7 +187,7 @@ def run_case(case, stats):
     # ---- route A: top-level struct (parser pre-registers, extends, commits)
     try:
         csA = gen.make_cs(cfg)
-        nc = bool(case.get("nocompile"))
+        nc = bool(case.get("nocompile") or defs["structs"][-1].get("nocompile"))
         htext, rtext = _root_text(defs, "R", sr, nocompile=nc)
         csA.load(htext + rtext, compiled=cfg["compiled"], align=cfg["align"])
         RA = csA.R
